@@ -192,10 +192,20 @@ def gen_model_cfg(rng: random.Random, tb: dict, shock_prone=False) -> dict:
         cfg["inventory_dict"] = dd
         if rng.random() < 0.3:
             cfg["inf_sect"] = rng.sample(secs, 1)
+    if random.Random(repr(cfg["alpha_tau"]) + repr(cfg["main_inv_dur"]) + repr(len(secs)) + repr(tb["Z"][0][0])).random() < 0.05:
+        # every input kept with infinite inventories (nothing is ever resupplied)
+        if cfg["inventory_dict"] is not None:
+            cfg["inventory_dict"] = {s: "inf" for s in secs}
+        else:
+            cfg["inf_sect"] = list(secs)
     if cls == "psi":
         cfg["psi"] = rng.choice([0.8, 0.8, 1.0, 0.5, 0.95, 0.05, 1])
         if rng.random() < 0.3:
             cfg["restoration_tau"] = {s: rng.choice([1, 5, 60, 90]) for s in secs}
+            if random.Random(repr(sorted(cfg["restoration_tau"].items()))).random() < 0.3:
+                # a time written as a float (90.0): accepted as the integer it is
+                k0 = random.Random(repr(sorted(cfg["restoration_tau"].items())) + "k").choice(list(secs))
+                cfg["restoration_tau"][k0] = float(cfg["restoration_tau"][k0])
         else:
             cfg["restoration_tau"] = rng.choice([60, 1, 5, 30])
     kind = rng.choice(["default", "default", "dict", "ndarray", "series", "dataframe"])
@@ -221,6 +231,11 @@ def gen_model_cfg(rng: random.Random, tb: dict, shock_prone=False) -> dict:
     if shock_prone:
         cfg["main_inv_dur"] = rng.choice([2, 3, 5])
         cfg["inventory_dict"] = None
+        cfg["inf_sect"] = None if cfg.get("inf_sect") is not None and len(cfg["inf_sect"]) == len(secs) else cfg.get("inf_sect")
+        if random.Random(repr(tb["Z"][0][0]) + "sp").random() < 0.4:
+            # short inventories of different lengths: the input that runs short need not be the one with the shortest duration
+            durs_ = random.Random(repr(tb["Z"][0][0]) + "sd")
+            cfg["inventory_dict"] = {s: durs_.choice([2, 3, 5, 10, 30]) for s in secs}
         if cls == "psi":
             cfg["psi"] = rng.choice([0.8, 0.9, 1.0, 0.95])
             cfg["restoration_tau"] = rng.choice([60, 90, 30])
@@ -320,7 +335,20 @@ def user_kwonly(elapsed_temporal_unit, *, init_impact_stock, recovery_tau):
     return init_impact_stock * 0.5 ** (elapsed_temporal_unit / recovery_tau)
 
 
-USER_CURVES = {"user_swapped": user_swapped, "user_kwonly": user_kwonly}
+def user_fixed_speed(elapsed_temporal_unit, init_impact_stock, recovery_tau):
+    """a user-supplied recovery function that is NOT proportional to the initial damage: every industry is repaired at the same
+    absolute speed (the largest damage is gone after 2 recovery_tau), so smaller damages are gone sooner"""
+    speed = np.max(np.asarray(init_impact_stock, dtype=float)) / (2.0 * recovery_tau)
+    return np.maximum(0.0, init_impact_stock - speed * elapsed_temporal_unit)
+
+
+def user_jump(elapsed_temporal_unit, init_impact_stock, recovery_tau):
+    """a user-supplied recovery function whose value at elapsed time 0 is not the initial damage: 40 % is restored as soon as
+    the event ends, the rest linearly over recovery_tau"""
+    return 0.6 * init_impact_stock * max(0.0, 1.0 - elapsed_temporal_unit / recovery_tau)
+
+
+USER_CURVES = {"user_swapped": user_swapped, "user_kwonly": user_kwonly, "user_fixed_speed": user_fixed_speed, "user_jump": user_jump}
 
 
 def curve_arg(name):
@@ -348,7 +376,7 @@ def gen_event(rng: random.Random, tb: dict, cfg: dict, T: int, etype=None, capit
     if etype == "arbitrary":
         ev["impact"] = {_key(r, s): rng.choice([0.1, 0.3, 0.5, 0.9, 1.0, 0.05]) for r, s in inds}
         ev["recovery_tau"] = rng.choice([1, 2, 3, 5, 10])
-        ev["curve"] = rng.choice(["linear", "linear", "convexe", "convexe noscale", "concave", "user_swapped", "user_kwonly"])
+        ev["curve"] = rng.choice(["linear", "linear", "convexe", "convexe noscale", "concave", "user_swapped", "user_kwonly", "user_fixed_speed", "user_jump"])
         return ev
     # (factors that are not powers of ten are documented too: currency conversion)
     emf = rng.choice([cfg["monetary_factor"], cfg["monetary_factor"], 1, 10**3, 10**6, 800, 2_500_000])
@@ -398,10 +426,13 @@ def gen_event(rng: random.Random, tb: dict, cfg: dict, T: int, etype=None, capit
             sh = rng.choice([[0.5, 0.3, 0.2], [0.7, 0.2, 0.1]])        # (0.7 + 0.2 + 0.1 is 0.9999999999999999 in floats)
         ev["reb_sectors"] = dict(zip(rs, sh))
         ev["factor"] = rng.choice([1.0, 1.0, 0.9, 0.3])
+        if random.Random(repr(occ) + repr(dur) + repr(n_aff) + "rf").random() < 0.12:
+            ev["factor"] = 2.0
+            ev["np_factor"] = True          # handed over as numpy.int64(2), as read from an integer array
         ev["shares_series"] = rng.random() < 0.35
     else:
         ev["recovery_tau"] = rng.choice([1, 2, 3, 5, 10, 30])
-        ev["curve"] = rng.choice(["linear", "linear", "convexe", "convexe noscale", "concave", "user_swapped", "user_kwonly"])
+        ev["curve"] = rng.choice(["linear", "linear", "convexe", "convexe noscale", "concave", "user_swapped", "user_kwonly", "user_fixed_speed", "user_jump"])
     return ev
 
 
@@ -411,6 +442,12 @@ def _mi(dct, names, int_dtype=False):
     if int_dtype and all(float(v).is_integer() for v in vals):
         return pd.Series([int(v) for v in vals], index=idx, dtype="int64")      # whole amounts, integer dtype
     return pd.Series(vals, index=idx, dtype=float)
+
+
+def _factor(ev):
+    if ev.get("np_factor") and float(ev["factor"]).is_integer():
+        return np.int64(int(ev["factor"]))
+    return ev["factor"]
 
 
 def build_event(ev: dict, order=None, shared=None):
@@ -454,14 +491,14 @@ def build_event(ev: dict, order=None, shared=None):
                   event_monetary_factor=ev["emf"], households_impact=house)
         if ev["type"] == "rebuild":
             return bev.from_scalar_industries(total, event_type="rebuild", rebuild_tau=ev["rebuild_tau"],
-                                              rebuilding_sectors=shares(), rebuilding_factor=ev["factor"], **kw)
+                                              rebuilding_sectors=shares(), rebuilding_factor=_factor(ev), **kw)
         return bev.from_scalar_industries(total, event_type="recovery", recovery_tau=ev["recovery_tau"],
                                           recovery_function=curve_arg(ev["curve"]), **kw)
     if ev["type"] == "rebuild":
         return bev.from_series(
             imp, event_type="rebuild", occurrence=ev["occ"], duration=ev["dur"], name=ev.get("name"),
             event_monetary_factor=ev["emf"], households_impact=house, rebuild_tau=ev["rebuild_tau"],
-            rebuilding_sectors=shares(), rebuilding_factor=ev["factor"],
+            rebuilding_sectors=shares(), rebuilding_factor=_factor(ev),
         )
     return bev.from_series(
         imp, event_type="recovery", occurrence=ev["occ"], duration=ev["dur"], name=ev.get("name"),
